@@ -301,13 +301,15 @@ func monC08() mc.Monitor {
 						continue
 					}
 					for t, mv := range q.Max {
-						if eff(q)[t] > mv && q.QPDue {
+						// (armed, not "due": whether a 1 ms delay has elapsed between the snapshot and the trigger is wall-clock
+						// dependent; long delays are judged by the quota-preemption-before-delay rule)
+						if eff(q)[t] > mv && q.QPSet {
 							justified = true
 						}
 					}
 				}
 				if !justified {
-					out = append(out, v("C08", "quota-preemption-not-justified", "excess", "quota preemption took victims in %s but no queue on its path is above a maximum with the delay elapsed", leaf))
+					out = append(out, v("C08", "quota-preemption-not-justified", "excess", "quota preemption took victims in %s but no queue on its path is above a maximum with quota preemption armed", leaf))
 				}
 			}
 			return out
@@ -742,7 +744,7 @@ func c07ShardProp(prop, tier string, shard, n int) *CustomResult {
 
 // preemption scenario for the explicit-state search: releases, confirmations and quota changes interleave with the decisions
 func scnPreempt(name string, quota bool) *world.Scenario {
-	return scnPreemptG(name, quota, 1, 3, "1ms", "1ms")
+	return scnPreemptG(name, quota, 1, 3, "1ns", "1ns")
 }
 
 // scnPreemptG: guaranteed of the victim queue b and of the asker a, quota preemption delays of the second and third document
@@ -773,7 +775,7 @@ func scnPreemptG(name string, quota bool, bGuar, aGuar int, delay1, delay2 strin
 	bm := "              max: {memory: 2}\n"
 	return &world.Scenario{
 		Name:    name,
-		Configs: []string{strings.ReplaceAll(conf(""), "DELAY", delay1), strings.ReplaceAll(conf(bm), "DELAY", delay1), strings.ReplaceAll(conf(bm), "DELAY", delay2)},
+		Configs: []string{strings.ReplaceAll(conf("              max: {memory: 10}\n"), "DELAY", delay1), strings.ReplaceAll(conf(bm), "DELAY", delay1), strings.ReplaceAll(conf(bm), "DELAY", delay2)},
 		Preempt: true,
 		Nodes:   []world.NodeSpec{{ID: "n1", Cap: world.M(4)}, {ID: "n2", Cap: world.M(2)}},
 		Apps: []world.AppSpec{
@@ -785,11 +787,28 @@ func scnPreemptG(name string, quota bool, bGuar, aGuar int, delay1, delay2 strin
 			{Key: "b2", App: "appb", Res: world.M(2), Create: 1002, AllowPreemptSelf: true},
 			{Key: "b3", App: "appb", Res: world.M(1), Create: 1003, Prio: 10, AllowPreemptSelf: true},
 			{Key: "a1", App: "appa", Res: world.M(2), Create: 1004, AllowPreemptOther: true},
-			{Key: "a2", App: "appa", Res: world.M(3), Create: 1005, AllowPreemptOther: true},
+			{Key: "a2", App: "appa", Res: world.M(int64(5 - bGuar)), Create: 1005, AllowPreemptOther: true},
 		},
 		Alphabet: []string{"SCHEDULE", "ASK", "RELEASE", "CONFIRM", "CONFIG", "QUOTA_PREEMPT", "NODE_REMOVE"},
 		Prefix:   []world.Op{op("NODE_ADD", "n1"), op("NODE_ADD", "n2"), op("APP_ADD", "appa"), op("APP_ADD", "appb"), op("ASK", "b1"), op("SCHEDULE"), op("ASK", "b2"), op("SCHEDULE"), op("ASK", "b3"), op("SCHEDULE")},
 	}
+}
+
+// five tasks of 2 in a victim queue with guaranteed 5: a second preemption attempt runs while a victim of the first is in flight
+func scnPreemptG5(name string) *world.Scenario {
+	s := scnPreemptG(name, false, 5, 8, "1ns", "1ns")
+	s.Nodes = []world.NodeSpec{{ID: "n1", Cap: world.M(10)}}
+	s.Asks = nil
+	s.Prefix = []world.Op{op("NODE_ADD", "n1"), op("APP_ADD", "appa"), op("APP_ADD", "appb")}
+	for i := 1; i <= 5; i++ {
+		k := fmt.Sprintf("b%d", i)
+		s.Asks = append(s.Asks, world.AskSpec{Key: k, App: "appb", Res: world.M(2), Create: 1000 + int64(i), AllowPreemptSelf: true, BoundNode: "n1"})
+		s.Prefix = append(s.Prefix, op("ASK_BOUND", k))
+	}
+	s.Asks = append(s.Asks, world.AskSpec{Key: "a1", App: "appa", Res: world.M(2), Create: 1010, AllowPreemptOther: true},
+		world.AskSpec{Key: "a2", App: "appa", Res: world.M(6), Create: 1011, AllowPreemptOther: true})
+	s.Alphabet = []string{"SCHEDULE", "ASK", "RELEASE", "CONFIRM"}
+	return s
 }
 
 func checkC07C08(prop string) func(tier string, seed int64) *CustomResult {
@@ -809,7 +828,7 @@ func checkC07C08(prop string) func(tier string, seed int64) *CustomResult {
 			depth = 7
 		}
 		states, trans := 0, 0
-		for _, sc := range []string{"preempt", "preempt-quota", "preempt-g3", "preempt-quota-delay"} {
+		for _, sc := range []string{"preempt", "preempt-quota", "preempt-g3", "preempt-g5", "preempt-quota-delay"} {
 			rep := mc.Explore(mc.Config{Scenario: sc + "-" + prop, Depth: depth, MapMode: 1, Budget: 10 * time.Minute, ExtraDepth: -1})
 			states += rep.States
 			trans += rep.Transitions
@@ -845,7 +864,8 @@ func init() {
 		}
 		mc.Register(&mc.ScenarioDef{Scn: scnPreempt("preempt-"+prop, false), Monitors: mons})
 		mc.Register(&mc.ScenarioDef{Scn: scnPreempt("preempt-quota-"+prop, true), Monitors: mons})
-		mc.Register(&mc.ScenarioDef{Scn: scnPreemptG("preempt-g3-"+prop, false, 3, 4, "1ms", "1ms"), Monitors: mons})
+		mc.Register(&mc.ScenarioDef{Scn: scnPreemptG("preempt-g3-"+prop, false, 3, 4, "1ns", "1ns"), Monitors: mons})
+		mc.Register(&mc.ScenarioDef{Scn: scnPreemptG5("preempt-g5-" + prop), Monitors: mons})
 		mc.Register(&mc.ScenarioDef{Scn: scnPreemptG("preempt-quota-delay-"+prop, true, 1, 4, "1h", "3h"), Monitors: mons})
 	}
 	registerCheck(&CheckDef{Prop: "C07", Level: "model_checking", Technique: "exhaustive product of small preemption worlds built on the real core plus explicit-state search of preemption scenarios; every PREEMPTED_BY_SCHEDULER release is judged from the pre-state against the eligibility rules", Custom: checkC07C08("C07"),
